@@ -757,3 +757,50 @@ V('C07-callable-extra-param', 'C07', L2TD,
   "def _format_uebung(n, l2tobj):", "def _format_uebung(n, l2tobj, numbering):", 'R07f')
 V('C07-benign', 'C07', L2T,
   "        # get macro behavior definition.\n", "        # get the macro behavior definition.\n", 'SILENT')
+
+
+# ----------------------------------------------------------------------- C03 / C08
+V('C03-preset-after-comment', 'C03', L2T,
+  """    'macros': {
+        'between-macro-and-chars': True,
+        'between-latex-constructs': True,
+        'after-comment': False,""",
+  """    'macros': {
+        'between-macro-and-chars': True,
+        'between-latex-constructs': True,
+        'after-comment': True,""", 'R03a')
+V('C03-false-means-based-on-source', 'C03', L2T,
+  "        return _strict_latex_spaces_predef['macros']\n    elif strict_latex_spaces is True:",
+  "        return _strict_latex_spaces_predef['based-on-source']\n    elif strict_latex_spaces is True:", 'R03a')
+V('C03-math-node-dispatch-missing', 'C03', L2T,
+  "        if node.isNodeType(latexwalker.LatexMathNode):\n            return self.math_node_to_text(node)\n", "", 'R03c')
+V('C03-equation-context-leaks', 'C03', UT,
+  "            setattr(self.obj, self.propname, self.initval)", "            pass", 'R03d')
+V('C03-emph-discarded', 'C03', L2TD,
+  "        MacroTextSpec('emph', discard=False),", "        MacroTextSpec('emph'),", 'R03e')
+V('C03-postspace-always', 'C03', L2T,
+  "                if not self.strict_latex_spaces['between-macro-and-chars']:",
+  "                if self.strict_latex_spaces['between-macro-and-chars'] is not None:", 'R03h')
+V('C03-whitespace-node-polarity', 'C03', L2T,
+  "        if not self.strict_latex_spaces['between-latex-constructs'] \\\n           and len(content.strip()) == 0:",
+  "        if self.strict_latex_spaces['between-latex-constructs'] \\\n           and len(content.strip()) == 0:", 'R03i')
+V('C03-endash', 'C03', L2TD,
+  '            SpecialsTextSpec("--", u"\\N{EN DASH}"),', '            SpecialsTextSpec("--", u"\\N{EM DASH}"),', 'R03j')
+V('C03-benign', 'C03', L2T,
+  "        # ### It doesn't look like we use prev_node_hint at all.  Eliminate at\n", "        # ### prev_node_hint is unused.  Eliminate at\n", 'SILENT')
+V('C08-l2t-symbol-changed', 'C08', L2TD,
+  "        ('oe', u'\\u0153'),", "        ('oe', u'oe'),", 'R08a')
+V('C08-benign-shadowed-duplicate', 'C08', L2TD,
+  "    MacroTextSpec('textcent', u'\\N{CENT SIGN}'), # ‘¢’", "    MacroTextSpec('textcent', u'c'), # ‘¢’", 'SILENT',
+  'the first of two duplicate entries of one category is shadowed by the second: behaviour unchanged')
+V('C08-encoder-entry-changed', 'C08', 'pylatexenc/latexencode/_uni2latexmap.py',
+  "0x00A1: r'\\textexclamdown',", "0x00A1: r'\\textquestiondown',", 'R08a')
+V('C08-accent-two-args', 'C08', 'pylatexenc/latexwalker/_defaultspecs.py',
+  '            std_macro("hat", False, 1),', '            std_macro("hat", False, 2),', 'R08c')
+V('C08-accent-combining-swapped', 'C08', L2TD,
+  '    ("`", u"\\N{COMBINING GRAVE ACCENT}"),', '    ("`", u"\\N{COMBINING ACUTE ACCENT}"),', 'R08a')
+V('C08-mathbb-offset', 'C08', L2T,
+  "    'doublestruck': (0x1D538, 0x1D552),", "    'doublestruck': (0x1D538, 0x1D553),", 'R08a')
+V('C08-benign', 'C08', UE,
+  "            # has dangling named macro, apply protection.\n            return '{' + repl + '}'",
+  "            # has a dangling named macro, apply protection.\n            return '{' + repl + '}'", 'SILENT')
